@@ -38,7 +38,7 @@ ASSUMPTIONS = ["generated string values are non-empty printable ASCII without qu
                "DIRECTIO restricted to 0/1 as in the statement (blimpy pads only for exactly 1)",
                "a torn file left by an injected fault is not judged; the retried recording is",
                "for recordings made onto existing RAW the provenance cards TELESCOP/OBSERVER/SRC_NAME are not judged (re-written by design) and inherited numeric cards may be quoted strings"]
-PROBES = ["caller_dictionary_passed_again", "recorded_over_previous_recording", "header_cards_mod32==0", "directio_pad_0_bytes", "directio_off_unaligned", "multi_file_last_partial",
+PROBES = ["start_chan_reassigned_between_recordings", "caller_dictionary_passed_again", "recorded_over_previous_recording", "header_cards_mod32==0", "directio_pad_0_bytes", "directio_off_unaligned", "multi_file_last_partial",
           "listing_last_is_not_highest", "override_attempted", "default_header_argument", "template_loaded",
           "record_after_aborted_record", "array_source", "reducer_compared", "single_antenna_user_nants",
           "blimpy_full_walk", "end_prefixed_key", "recording_onto_existing_raw", "retry_over_leftover_files"]
@@ -138,6 +138,8 @@ def generate(rng, tier):
                         "num_subblocks": rng.randint(1, 4), "seed": rng.randrange(1 << 30)})
         if rng.random() < 0.15:
             ops.append({"op": "rebuild", "array": rng.random() < 0.5})
+        elif rng.random() < 0.15:
+            ops.append({"op": "set_start_chan", "frac": rng.randrange(64)})
     return {"seams": {"clock_origin": 1.7e9 + rng.randrange(10 ** 6), "clock_jitter_seed": rng.randrange(1 << 20),
                       "entropy_salt": rng.randrange(1 << 20), "scratch": "c04"},
             "ant": ant, "el": el, "be": be, "ops": ops}
@@ -515,6 +517,14 @@ def execute(sc, ctx):
     last_stem = None
     for j, op in enumerate(sc["ops"]):
         ctx.op(op["op"] + ("+fault" if op.get("fault") else ""))
+        if op["op"] == "set_start_chan":
+            # another coarse-channel bank of the same antenna, recorded by the same backend object
+            nmax = el["B"] // 2 - be["num_chans"]
+            be = dict(be, start_chan=op["frac"] % (nmax + 1))
+            backend.start_chan = W._icast(el)(be["start_chan"])
+            ctx.hit("start_chan_reassigned_between_recordings")
+            ctx.event("set_start_chan", be["start_chan"])
+            continue
         if op["op"] == "rebuild":
             if op.get("array") != (ant["kind"] == "array"):
                 # switch between single antenna and array with the same element configuration
